@@ -142,7 +142,7 @@ func (e *Engine) Summarize(f *ssa.Function) *Summary {
 	var rets []ret
 	for _, b := range f.Blocks {
 		if r, ok := b.Instrs[len(b.Instrs)-1].(*ssa.Return); ok && a.in[b] != nil {
-			okp := s.ErrIdx >= 0 && isNilConst(r.Results[s.ErrIdx])
+			okp := s.ErrIdx >= 0 && isNilConst(a.cv(r.Results[s.ErrIdx]))
 			rets = append(rets, ret{b, r, okp})
 		}
 	}
@@ -247,7 +247,7 @@ func (e *Engine) Summarize(f *ssa.Function) *Summary {
 		case *types.Pointer, *types.Interface, *types.Map, *types.Signature, *types.Chan:
 			nn, nnok, anyOK := true, true, false
 			for _, r := range rets {
-				v := a.isNonNil(a.in[r.b], r.r.Results[j])
+				v := a.isNonNil(a.out[r.b], r.r.Results[j])
 				if !v {
 					nn = false
 					if r.okp {
@@ -340,6 +340,32 @@ func (a *FuncAn) callResult(v ssa.Value, call *ssa.Call, idx int, single bool) L
 	_, uns, isInt := a.E.intInfo(v.Type())
 	if !isInt {
 		return a.opaque(v)
+	}
+	// piecewise-constant callee evaluated under the caller's facts
+	if dcs := a.decidedCases(call); len(dcs) > 0 {
+		lo, hi := dcs[0].val, dcs[0].val
+		for _, dc := range dcs {
+			if dc.val < lo {
+				lo = dc.val
+			}
+			if dc.val > hi {
+				hi = dc.val
+			}
+		}
+		if lo == hi {
+			return Konst(lo)
+		}
+		l := a.opaque(v)
+		at := l.t[0].a
+		if !a.inited2[at] {
+			a.inited2[at] = true
+			a.bounds(at, &lo, &hi)
+			for _, dc := range dcs {
+				eq := l.plus(-dc.val)
+				a.conds = append(a.conds, condLemma{preLits: dc.lits, post: []Lin{eq, Scale(eq, -1)}, why: "piecewise-constant callee under the caller's branch facts"})
+			}
+		}
+		return l
 	}
 	sums, ok := a.E.joinSummaries(call)
 	if !ok {
